@@ -104,9 +104,23 @@ def walk_direct(ctx, spec, rng):
     e = [some_entry(H)]
     many = [some_entry(H, i) for i in range(40)]  # one send_sd call with many entries is one message with one id
 
+    # one unicast destination is contacted for the very first time only after another destination (in half of the walks: the
+    # multicast group) has wrapped: its ids still start at 1 with the reboot flag set
+    late = dsts[1] if ndst >= 3 else None
+    targets = {d: target for d in dsts}
+    if late is not None:
+        targets[late] = 400
+        ctx.count("destinations_first_contacted_after_another_one_wrapped")
+    mc_first = rng.random() < 0.5
+
     def body():
-        while any(c < target for c in counts.values()):
-            d = rng.choice([d for d in dsts if counts[d] < target])
+        while any(counts[d] < targets[d] for d in dsts):
+            wrapped = max(counts.values()) > 0xFFFF + 5
+            open_ = [d for d in dsts if counts[d] < targets[d] and not (late is not None and d == late and not wrapped)]
+            if mc_first and late is not None and not wrapped and counts[None] < targets[None]:
+                open_ = [None]  # drive the multicast group through its wrap first
+            d = rng.choice(open_)
+            target = targets[d]
             blk = min(rng.choice((1, 2, 7, 100, 1000, 3000)) if ndst > 1 else target, target - counts[d])
             sched.append((dsts.index(d), blk))
             for _ in range(blk):
